@@ -15,7 +15,7 @@ EXHAUSTIVE = True
 RULE = ("all ordered pairs and triples of units within each of the 7 dimensions (41 units; exhaustive) x magnitudes "
         "{0, +-1, random in 1e-8..1e8 of either sign} (angles inside one turn, tangent units |angle|<1.5 rad); "
         "a case = (relation, dimension, units, magnitude); non-trivial when the units differ and the magnitude is non-zero")
-MUST_OBSERVE = ["pair_conversions", "round_trips", "triples", "units_seen", "inplace_routes", "relabel_routes"]
+MUST_OBSERVE = ["pair_conversions", "round_trips", "triples", "units_seen", "inplace_routes", "relabel_routes", "wide_angle_tangent_readings"]
 ASSUMPTIONS = ["R-SI table (vf/refs_si.py): exact inch, pound, grain, nautical mile, g0, conventional mmHg; "
                "Mil = 2pi/6400, Thousandth = 2pi/6000, OClock = 2pi/12",
                "float pi is taken as the library's pi (conversions compared in double precision)"]
@@ -137,9 +137,27 @@ def check_relabel_route(ctx, a, t, b, x):
         ctx.violation("relabel-route.raw", f"q = Unit.{a}({x!r}); q << {t}; Unit.{b}(q): raw value {r.raw_value!r} / {q.raw_value!r}, was {raw0!r}", case)
 
 
+def check_wide_tangent(ctx, a, b, x):
+    """Reading an angle beyond a quarter turn in a tangent unit is well defined (K tan(angle), negative between 90 and 180 deg);
+    only the way back is not (atan loses the half turn), so this direction is checked alone."""
+    case = {"rel": "wide-tangent", "dim": "Angular", "a": a, "b": b, "x": x}
+    ctx.case(case, nontrivial=True, sample=False)
+    ctx.count("wide_angle_tangent_readings")
+    theta = si.to_base("Angular", a, x)
+    got = Unit[a](x) >> Unit[b]
+    want = si.TANGENT[b] * math.tan(theta)
+    cond = max(1.0, abs(theta / (math.sin(theta) * math.cos(theta))))
+    if not abs(got - want) <= REL * cond * abs(want) + 1e-9:
+        ctx.violation(f"pair.wide-angle.{a}->{b}", f"Unit.{a}({x!r}) >> {b} = {got!r}, K tan(angle) = {want!r}", case, got=got, want=want)
+
+
 def run(ctx):
     n = 20 if ctx.tier == "quick" else 600
     linear = [u for u in si.DIMENSIONS["Angular"] if u not in si.TANGENT]
+    for _ in range(ctx.share(400 if ctx.tier == "quick" else 20000)):
+        th = ctx.rng.choice([-1, 1]) * ctx.rng.uniform(math.pi / 2 + 0.05, math.pi - 0.01)
+        a = ctx.rng.choice(linear)
+        check_wide_tangent(ctx, a, ctx.rng.choice(list(si.TANGENT)), si.from_base("Angular", a, th))
     for _ in range(ctx.share(400 if ctx.tier == "quick" else 20000)):
         a, b = ctx.rng.choice(linear), ctx.rng.choice(linear)
         t = ctx.rng.choice(si.DIMENSIONS["Angular"])
@@ -177,5 +195,7 @@ def replay(ctx, case):
         check_pair(ctx, case["dim"], case["a"], case["b"], case["x"])
     elif case["rel"] == "triple":
         check_triple(ctx, case["dim"], case["a"], case["b"], case["c"], case["x"])
+    elif case["rel"] == "wide-tangent":
+        check_wide_tangent(ctx, case["a"], case["b"], case["x"])
     elif case["rel"] == "relabel":
         check_relabel_route(ctx, case["a"], case["t"], case["b"], case["x"])
